@@ -812,18 +812,20 @@ def unify(model, impl):
 # the property statement on the implementation's stream (stub driver)
 # ------------------------------------------------------------------------------------------
 MECH_NAMES = ('PLAIN', 'EXTERNAL', 'ECDSA-NIST256P-CHALLENGE', 'SCRAM-SHA-256')
+# numerics that make Irc.feedMsg adopt args[0] as the bot's nick (the server has registered us under it)
+NICK_SETTERS = ('001', '002', '003', '004', '005', '250', '251', '252', '254', '255', '265', '266', '372', '375', '376', '333', '353', '332', '366')
 
 def safety_oracle(ops, obs):
     """returns list of (predicate, message) violated.  Epochs end at 'reset'; after a driver abort
     (reconnect/die on the stub, which does not reset) the rest of the epoch is not judged."""
     bad = []
-    ends = 0; aborted = False; sasl_acked = False
+    ends = 0; aborted = False; sasl_acked = False; welcomed = False
     prev = obs[0]
     for op, o in zip(ops, obs[1:]):
         if o is None:
             continue
         if op[0] == 'reset':
-            ends = 0; aborted = False; sasl_acked = False
+            ends = 0; aborted = False; sasl_acked = False; welcomed = False
             if o.s.split('\t')[:13] != obs[0].s.split('\t')[:13]:
                 bad.append(('reset_fresh', 'after reset the observable state differs from a new Irc: %r vs %r' % (o.s, obs[0].s)))
             prev = o
@@ -861,6 +863,20 @@ def safety_oracle(ops, obs):
                             bad.append(('sasl_after_ack', 'AUTHENTICATE payload sent in response to %r' % trigger))
                         if prev.fsm not in FSM_SASL:
                             bad.append(('sasl_after_ack', 'AUTHENTICATE payload sent in state %s' % prev.fsm))
+            # local progress (holds for every server, conformant or not): a final CAP LS arriving during the
+            # negotiation is answered by CAP REQ, CAP END or an abort; a nick refusal before the end of the
+            # registration is answered by a new NICK
+            t = trigger.split(' ')
+            if t and t[0].startswith(':'):
+                t = t[1:]
+            if len(t) >= 4 and t[0] == 'CAP' and t[2] == 'LS' and t[3].startswith(':') and prev.fsm == 'INIT_CAP_NEGOTIATION':
+                if not o.calls and not any(m.command == 'CAP' and m.args[:1] in (('REQ',), ('END',)) for m in o.msgs):
+                    bad.append(('progress', 'the final CAP LS %r was answered neither by CAP REQ nor by CAP END nor by an abort (state %s): the bot waits for something the server will not send' % (trigger, o.fsm)))
+            if t and t[0] in NICK_SETTERS:
+                welcomed = True
+            if t and t[0] in ('432', '433', '437') and not prev.after and not welcomed:
+                if not o.calls and not any(m.command == 'NICK' for m in o.msgs):
+                    bad.append(('progress', 'the nick refusal %r was not answered by a new NICK (exception: %s)' % (trigger, o.exc)))
             if o.calls:
                 aborted = True
         prev = o
